@@ -75,7 +75,7 @@ def run(ctx):
         "samples": [{"class": cl.keys[i], "value": values.render(a)[:300]} for i, a, _ in insts[:: max(1, len(insts) // 6)][:6]],
     })
     for f in fails[:3]:
-        ctx.violation(f"{f['class']}: decode(encode(x)+tail) != (x, tail)", dict(kind="c01", **f))
+        ctx.violation(f"{f['class']}: decode(encode(x)+tail) != (x, tail)", {**f, "check": "c01"})
     if disagreements and not fails:
         ctx.broken.append(f"correspondence enc/dec: {len(disagreements)} disagreement(s); first: {disagreements[0]}")
         ctx.notes.append({"disagreements": disagreements[:5]})
